@@ -36,13 +36,13 @@ def tasks(tier, seed):
                 grow = peaks[-1][0] > peaks[0][0] + cs + tl + 1024 or peaks[-1][1] > peaks[0][1] + cs + tl + 1024
                 return grow, 'native live-heap peaks (read, write) for N=%s: %s' % (list(sizes), peaks)
             ts.append(Task('mem.c%d_t%d.n%d' % (cs, tl, n), txt, 'h_mem', None,
-                           opts=dict(validate=False, extra=['zlib_stub.cpp'], max_steps=200000000, max_wall=1500,
+                           opts=dict(validate=False, extra=['zlib_stub.cpp'], limit_is_hang=True, max_steps=60000000, max_wall=1500,
                                      native_growth=native_growth),
                            desc='%d AppText objects with %d symbolic text bytes, container size %d (objects %s containers): '
                                 'peak live heap of the library during a slow-producer write session and a read session' % (
                                     n, tl, cs, 'span several' if tl + 48 > cs else 'are smaller than'),
                            reach=('h_mem:end',), bounds='N = %d objects' % n,
-                           kinds={'assert', 'memory', 'deadlock', 'limit', 'uncaught_exception', 'terminate', 'growth'}))
+                           kinds={'assert', 'memory', 'deadlock', 'hang', 'limit', 'uncaught_exception', 'terminate', 'growth'}))
 
     def post(res):
         out = []
